@@ -19,6 +19,20 @@ CLAIMED = {
          "mismatch = harness error), the independent SemVer/PEP 440 comparators (unit-tested against the specifications' example chains) and the "
          "tag-name table whose validity classes are fixed by construction."),
    design="DESIGN.md §3, §4 C02"),
+ "C13": dict(
+   level="fault_enumeration",
+   technique="deterministic simulation with fault injection: every git invocation x every fault kind enumerated through a git proxy, storage / stdin / cwd / PATH faults, seeded adversarial argv",
+   text=("Per seeded scenario (world state x command) the fault-free run is traced through the git proxy and then every git invocation index x every one "
+         "of 24 fault kinds (error exits with real git messages, empty / non-numeric / negative / huge / non-UTF-8 / NUL / 1 MB outputs, torn output, junk "
+         "lines, SIGKILL, SIGSEGV) is executed - enumerated, not sampled - plus whole-run faults (git missing / not executable / a directory / ENOEXEC / "
+         "every call failing / step budget), 2-3 fault sequences, storage corruption (9 targets x 5 manners, errors produced by the real git), stdin "
+         "faults (closed fd, directory fd, invalid UTF-8, NUL, torn, 10 MB), cwd faults (deleted cwd, -C to file / missing / empty / .git, non-UTF-8 argv), "
+         "interleaved repository mutations at every invocation index (thorough), and an adversarial argv workload generated from the flag set the binary "
+         "reports. Oracle per child: exit 0 with the result only on stdout (one line for semver/pep440; byte-identical stdout under -v and RUST_LOG=trace), "
+         "or exit != 0 with empty stdout and a diagnostic; exit 101, 'panicked at', death by signal, watchdog or step-budget overrun are violations."),
+   note=("Scenarios, argv and multi-fault sequences are sampled; only git-invocation x fault-kind is exhaustive per scenario. Trusts the proxy trace for "
+         "'fault fired', git 2.39.5 for storage errors, and an 8 GiB RLIMIT_AS to turn runaway allocations into aborts."),
+   design="DESIGN.md §3.3, §4 C13"),
 }
 
 NA = {
